@@ -261,26 +261,49 @@ func vfC08Run(run *vfkit.Run, cs *vfC08Case) {
 				}
 				// characters that mean something to a formatter, a URL decoder, a C string or a byte-wise copier
 				spice := []string{"", "", " 100% done", " %d%s%v%x%!", " a%20b%2F", " %%", " ünï©ode 中 \U0001F600", " \\n\\t {0} ${x}"}[r.Intn(8)]
-				body := fmt.Sprintf("%s:%s", id, strings.Repeat(string(rune('a'+g%26)), ln)) + spice
+				how := r.Intn(3)
+				// build(ln) serializes the stanza with ln filler characters in its text
+				var m stanza.Message
+				var iq *stanza.IQ
+				build := func(ln int) string {
+					body := fmt.Sprintf("%s:%s", id, strings.Repeat(string(rune('a'+g%26)), ln)) + spice
+					switch how {
+					case 0:
+						m = stanza.Message{Attrs: stanza.Attrs{Id: id, To: "a@b", Type: "chat"}, Body: body + " <&>"}
+						b, _ := xml.Marshal(m)
+						return string(b)
+					case 1:
+						return fmt.Sprintf(`<message id='%s' to='x@y'><body>%s</body></message>`, id, body)
+					}
+					iq, _ = stanza.NewIQ(stanza.Attrs{Id: id, Type: "get", To: "srv"})
+					iq.Payload = &stanza.DiscoInfo{Node: body}
+					b, _ := xml.Marshal(iq)
+					return string(b)
+				}
+				if r.Intn(8) == 0 {
+					// a stanza whose serialized length is exactly a buffer size of the path, or one byte off
+					target := []int{4096, 32768, 65536}[r.Intn(3)] + r.Intn(3) - 1
+					if base := len(build(0)); target > base {
+						ln = target - base
+					}
+				}
+				txt := build(ln)
 				var s vfSent
-				switch r.Intn(3) {
+				switch how {
 				case 0:
-					m := stanza.Message{Attrs: stanza.Attrs{Id: id, To: "a@b", Type: "chat"}, Body: body + " <&>"}
-					b, _ := xml.Marshal(m)
-					s = vfSent{text: string(b), how: "Send"}
+					s = vfSent{text: txt, how: "Send"}
 					s.err = sender.Send(m)
 				case 1:
-					txt := fmt.Sprintf(`<message id='%s' to='x@y'><body>%s</body></message>`, id, body)
 					s = vfSent{text: txt, how: "SendRaw"}
 					s.err = sender.SendRaw(txt)
 				default:
-					iq, _ := stanza.NewIQ(stanza.Attrs{Id: id, Type: "get", To: "srv"})
-					iq.Payload = &stanza.DiscoInfo{Node: body}
-					b, _ := xml.Marshal(iq)
-					s = vfSent{text: string(b), how: "SendIQ"}
+					s = vfSent{text: txt, how: "SendIQ"}
 					ctx, cancel := context.WithCancel(context.Background())
 					_, s.err = sender.SendIQ(ctx, iq)
 					cancel()
+				}
+				if l := len(txt); l >= 4095 && l <= 4097 || l >= 32767 && l <= 32769 || l >= 65535 && l <= 65537 {
+					atomic.AddInt64(&vfC08BoundarySized, 1)
 				}
 				results[g] = append(results[g], s)
 				if r.Intn(4) == 0 {
@@ -460,12 +483,15 @@ func vfC08LoggerUnit(run *vfkit.Run) {
 	}
 }
 
+var vfC08BoundarySized int64
+
 func TestVf_C08(t *testing.T) {
 	run := vfkit.Open("C08", "G in {1,4,16,64} goroutines x N stanzas each (unique ids, 10 B - 40 KiB, mix of Send / SendRaw / SendIQ) x {stream management on/off} x {traffic logger on/off} "+
 		"x {client TCP, client WebSocket, component TCP}; fault runs: the k-th socket write fails, or is short under the logger, for every k of a 30-send run; "+
 		"oracle: the peer's raw byte stream after the negotiation is exactly the accepted serializations, each contiguous and once, per-sender order kept, errors == injected faults, log holds each once; "+
 		"non-trivial = distinct configuration whose wire was fully accounted for")
 	defer run.Close()
+	defer func() { run.Count("stanzas_of_exactly_a_buffer_size", atomic.LoadInt64(&vfC08BoundarySized)) }()
 	var rc vfC08Case
 	if run.ReplayCase(&rc) {
 		for i := 0; i < 5; i++ {
